@@ -244,6 +244,7 @@ def gen_hist(r, k):
     # absolute step numbers beyond 32 and 53 bits; a second histogram on the same variables that is deleted on the way;
     # a configuration that is rejected in the middle of the session
     c["step0"] = r.choice([0, 0, 2 ** 31 - 3, 2 ** 32 + 5, 2 ** 53 - 2, 2 ** 62])
+    c["tsf"] = r.choice([1, 1, 1, 2, 3, 5, 7])      # timeStepFactor: the bias sleeps unless the absolute step is a multiple
     c["second"] = r.choice([None, None, "first", "last"])
     c["delete_at"] = r.randint(1, nsteps - 1)
     c["bad_config_at"] = r.randint(1, nsteps - 1) if r.random() < 0.3 else None
@@ -277,6 +278,8 @@ def hist_scenario(c, statefile):
     if c.get("second") == "first":
         L += h2
     L += ["histogram {", "  name h", "  colvars " + " ".join("v%d" % d for d in range(len(c["vars"])))]
+    if c.get("tsf", 1) > 1:
+        L += ["  timeStepFactor %d" % c["tsf"]]
     if c["stepzero"]:
         L += ["  stepZeroData on"]
     L += ["  outputFileDX hout%d.h.dx" % c["id"]]
@@ -326,6 +329,7 @@ def hist_model_case(c):
     parts += [str(len(c["events"]))]
     rel = 0
     first = True
+    ab = c.get("step0", 0)
     for boundary, zs in c["events"]:
         if first:
             first = False
@@ -333,6 +337,10 @@ def hist_model_case(c):
             rel = 0
         elif not boundary:
             rel += 1
+            ab += 1
+        if ab % c.get("tsf", 1) != 0:
+            parts += [str(rel), "1" if boundary is True else "0", "0"]      # the bias sleeps at this step: update() is not called
+            continue
         parts += [str(rel), "1" if boundary is True else "0", "1"]
         parts += ["W %d %s %s %s" % (1 if v["periodic"] else 0, V.hexf(v.get("c", 0.0)), V.hexf(v.get("P", 1.0)), V.hexf(z))
                   for v, z in zip(c["vars"], zs)]
@@ -349,6 +357,7 @@ def hist_oracle(c):
     counts = [0] * nt
     rel = 0
     first = True
+    ab = c.get("step0", 0)
     for boundary, zs in c["events"]:
         if first:
             first = False
@@ -356,7 +365,8 @@ def hist_oracle(c):
             rel = 0
         elif not boundary:
             rel += 1
-        elig = (rel > 0 and boundary is not True) or c["stepzero"]
+            ab += 1
+        elig = ((rel > 0 and boundary is not True) or c["stepzero"]) and ab % c.get("tsf", 1) == 0
         if not elig:
             continue
         a = 0
@@ -394,9 +404,18 @@ def check_hist_files(run, c, d, exp, model, scenario):
     dx = os.path.join(d, "hout%d.h.dx" % c["id"])
     if not c["events"] or not any(True for _ in exp):
         return
-    has_data = any(e > 0 for e in exp)
-    if not has_data:
-        return            # nothing is written for an empty histogram
+    # the files are written once the bias has been updated (colvarbias::has_data) since the instance was created: with a
+    # timeStepFactor the bias may sleep from the last restart to the end of the run
+    ab, awake = c.get("step0", 0), False
+    for ne, (boundary, zs) in enumerate(c["events"]):
+        if ne > 0 and boundary == "r":
+            awake = False
+        elif ne > 0 and not boundary:
+            ab += 1
+        if ab % c.get("tsf", 1) == 0:
+            awake = True
+    if not awake:
+        return
     g = {"mult": 1, "nd": nd, "nx": [v["nx"] for v in vs], "lower": [v["lower"] for v in vs], "upper": [v["upper"] for v in vs],
          "width": [v["w"] for v in vs], "per": [1 if v["periodic"] else 0 for v in vs], "data": [float(e) for e in exp]}
     if not os.path.exists(dat):
